@@ -786,6 +786,7 @@ def m_concatenate(arrays, axis=0, **kw):
 
 def m_append(arr, values, axis=None):
     vals = values if isinstance(values, (SymArray, list, tuple, numpy.ndarray)) else [values]
+    arr = arr if isinstance(arr, (SymArray, list, tuple, numpy.ndarray)) else [arr]
     return m_concatenate([arr, vals])
 
 
@@ -1052,11 +1053,17 @@ def m_sort(a, axis=-1, kind=None, **kw):
     return a[m_argsort(a)]
 
 
+_SS = [0]
+
+
 def m_searchsorted_arr(arr, v, side="left", sorter=None):
     """numpy.searchsorted on a symbolic sorted array: number of elements before the insertion point"""
     if sorter is not None:
         arr = arr[sorter]
     es = as_list(arr)
+    # numpy binary-searches: on a haystack that is not ascending the result is whatever the search happens to
+    # hit (it even depends on the previous key) -- modelled as an unconstrained index in 0..n
+    asc = R.zand(*[R.zbool(truth(R.compare(ast.LtE(), a, b))) for a, b in zip(es, es[1:])]) if len(es) > 1 else True
 
     def one(x):
         op = ast.Lt() if side == "left" else ast.LtE()
@@ -1064,7 +1071,14 @@ def m_searchsorted_arr(arr, v, side="left", sorter=None):
         for e in es:
             c = R.compare(op, e, x)
             tot = R.binop(ast.Add(), tot, merge(truth(c), 1, 0) if is_sym(c) else (1 if c else 0))
-        return tot
+        if asc is True:
+            return tot
+        _SS[0] += 1
+        free = z3.Int(f"searchsorted_unsorted!{_SS[0]}")
+        R.CTX.assumptions.append(z3.And(free >= 0, free <= len(es)))
+        if asc is False:
+            return Sym(free, int)
+        return merge(Sym(asc, bool), tot, Sym(free, int))
     if isinstance(v, SymArray):
         return SymArray([one(x) for x in v.e], int)
     if isinstance(v, Masked):
@@ -1172,6 +1186,19 @@ def _reg_seq(npf, model):
 _reg_seq(numpy.concatenate, m_concatenate)
 _reg_seq(numpy.append, m_append)
 _reg_seq(numpy.hstack, lambda arrays, **kw: m_concatenate(arrays))
+def _m_accumulate(fn):
+    def run(a, axis=0, **kw):
+        out, cur = [], None
+        for x in as_list(a):
+            cur = x if cur is None else fn(cur, x)
+            out.append(cur)
+        return SymArray(out)
+    return run
+
+
+R.INTRINSICS[numpy.maximum.accumulate] = lambda args, kw: _m_accumulate(lambda a, b: merge(truth(R.compare(ast.GtE(), a, b)), a, b))(*args, **kw)
+R.INTRINSICS[numpy.minimum.accumulate] = lambda args, kw: _m_accumulate(lambda a, b: merge(truth(R.compare(ast.LtE(), a, b)), a, b))(*args, **kw)
+R.INTRINSICS[numpy.add.accumulate] = lambda args, kw: m_cumsum(*args, **kw)
 R.INTRINSICS[numpy.add.at] = lambda args, kw: _m_ufunc_at("add")(*args, **kw)
 R.INTRINSICS[numpy.maximum.at] = lambda args, kw: _m_ufunc_at("max")(*args, **kw)
 R.INTRINSICS[numpy.minimum.at] = lambda args, kw: _m_ufunc_at("min")(*args, **kw)
